@@ -428,6 +428,15 @@ def mon_c13(script, res):
             refused = [e[1], '%s request %s' % (e[2], e[1])]
         if k == 'wait':
             waited.add(e[1])
+        if k == 'polled' and e[1] in open_reqs:
+            r_ = open_reqs[e[1]]
+            if r_['kind'] == 'start' and r_['arg'] == 1 and r_['forked'] and cur[r_['i']] not in (10, 20):
+                return ('startProcess(p%d, wait=true): the pending answer was polled while the process was in state %s (neither '
+                        'STARTING nor RUNNING) and still said "not done" - it must answer SPAWN_ERROR or ABNORMAL_TERMINATION '
+                        'then' % (r_['i'], cur[r_['i']]))
+            if r_['kind'] == 'stop' and r_['arg'] == 1 and cur[r_['i']] in (0, 100, 200, 1000):
+                return ('stopProcess(p%d, wait=true): the pending answer was polled while the process was in the stopped state %s '
+                        'and still said "not done"' % (r_['i'], cur[r_['i']]))
         if k == 'req':
             _, req, what, a, b = e
             if what in ('start', 'stop', 'signal') and 0 <= a < n:
